@@ -95,7 +95,7 @@ def gen_doc(g, exact=True):
 
 def run(ctx):
     g = G(ctx.seed)
-    n_random = 400 if ctx.tier == 'quick' else 6000
+    n_random = 2000 if ctx.tier == 'quick' else 6000
     maxlen = 4 if ctx.tier == 'quick' else 5
     cases = []
     # exhaustive: all token sequences up to maxlen, LF and CRLF, with and without final newline
@@ -131,7 +131,7 @@ def run(ctx):
         ctx.sample({'src': c.src.decode('utf-8', 'replace')[:400], 'expected_records': len(c.spec)})
     # through the commands: csv database (raw, file order), csv log, print
     apps = []
-    for _ in range(60 if ctx.tier == 'quick' else 800):
+    for _ in range(250 if ctx.tier == 'quick' else 800):
         book = g.book(exact=True, unusual=0.3)
         log = g.log(book=book, exact=True, unusual=0.3)
         files = {b'food.yaml': g.render_book(book), b'log.yaml': g.render_log(log)}
